@@ -98,5 +98,26 @@ def run_fresh(recipe, timeout=60, workdir=None):
 def run_here(recipe):
     """ run in this process (fast; single-file runs never fork) """
     sys.path.insert(0, HERE)
+    import resource
     import sk_child
-    return sk_child.execute(recipe)
+    # a changed tree may make a run grow without bound (e.g. state shared
+    # between runs that doubles): cap the address space for the duration of
+    # the run so that it ends in a MemoryError observation, not in the OOM
+    # killer taking the whole check down
+    soft, hard = resource.getrlimit(resource.RLIMIT_AS)
+    try:
+        with open('/proc/self/statm') as f:
+            cur = int(f.read().split()[0]) * resource.getpagesize()
+        cap = cur + (3 << 30)
+        if hard != resource.RLIM_INFINITY:
+            cap = min(cap, hard)
+        resource.setrlimit(resource.RLIMIT_AS, (cap, hard))
+    except (OSError, ValueError):
+        pass
+    try:
+        return sk_child.execute(recipe)
+    finally:
+        try:
+            resource.setrlimit(resource.RLIMIT_AS, (soft, hard))
+        except (OSError, ValueError):
+            pass
